@@ -195,6 +195,8 @@ RATE_LIMITS = [
     ("ll_below_truth_scaled:ScipyGamma", "mle/family=ScipyGamma", 0.20, 40),
     ("ll_below_truth:GeneralizedGamma:user_start", "mle/family=GeneralizedGamma", 0.08, 40),
     ("ll_below_truth_scaled:GeneralizedGamma:user_start", "mle/family=GeneralizedGamma", 0.08, 40),
+    ("ll_below_truth:ExponentiatedWeibull:user_start", "mle/family=ExponentiatedWeibull", 0.04, 40),
+    ("ll_below_truth_scaled:ExponentiatedWeibull:user_start", "mle/family=ExponentiatedWeibull", 0.04, 40),
     ("ll_below_truth:LogNormalNormFit", "mle/family=LogNormalNormFit", 0.30, 40),
 ]
 
